@@ -184,6 +184,11 @@ impl<'a, T: ?Sized> Deref for RwLockReadGuard<'a, T> {
 
 impl<'a, T: ?Sized> Drop for RwLockReadGuard<'a, T> {
   fn drop(&mut self) {
+    if let Some((ctx, _)) = &self.rel {
+      if self.inner.is_some() {
+        rt::pre_release_point(ctx);
+      }
+    }
     self.inner = None;
     if let Some((ctx, a)) = self.rel.take() {
       rt::release(&ctx, a, false);
@@ -206,6 +211,11 @@ impl<'a, T: ?Sized> DerefMut for RwLockWriteGuard<'a, T> {
 
 impl<'a, T: ?Sized> Drop for RwLockWriteGuard<'a, T> {
   fn drop(&mut self) {
+    if let Some((ctx, _)) = &self.rel {
+      if self.inner.is_some() {
+        rt::pre_release_point(ctx);
+      }
+    }
     self.inner = None;
     if let Some((ctx, a)) = self.rel.take() {
       rt::release(&ctx, a, true);
@@ -335,6 +345,11 @@ impl<'a, T: ?Sized> DerefMut for MutexGuard<'a, T> {
 
 impl<'a, T: ?Sized> Drop for MutexGuard<'a, T> {
   fn drop(&mut self) {
+    if let Some((ctx, _)) = &self.rel {
+      if self.inner.is_some() {
+        rt::pre_release_point(ctx);
+      }
+    }
     self.inner = None;
     if let Some((ctx, a)) = self.rel.take() {
       rt::release(&ctx, a, true);
